@@ -106,25 +106,40 @@ pub fn digest(b: &[u8]) -> String {
     }
 }
 
+/// long result lines are cut to head + length + FNV-64 of the whole + tail (same rule in the driver)
+pub fn compress(s: &str) -> String {
+    if s.len() <= 1200 {
+        s.to_string()
+    } else {
+        format!("{} ...[{}:#{}]... {}", &s[..500], s.len(), fnv(s.as_bytes()), &s[s.len() - 300..])
+    }
+}
+
 fn show_frag(h: &Ipv4Header, m: &Message) -> String {
     format!("{{{}|{}}}", H::from_real(h).show(), digest(&m.to_vec()))
 }
 
+/// Panic class = kind (from the panic message) + site (from tokens of the source line, so that
+/// renaming a temporary or splitting an expression does not change the identity).
 fn classify(p: &PanicInfo) -> String {
     let text = source_line_text(&p.file, p.line);
     let t = text.as_str();
     if p.file.ends_with("message.rs") && t.starts_with("assert!(len <= self.len)") {
-        "panic:assert:cut".into()
-    } else if !p.file.ends_with("fragmentation.rs") {
-        format!("panic:other:{}:{}", p.file.rsplit('/').next().unwrap_or(""), t.replace(' ', "_"))
-    } else if t.starts_with("let fragment_blocks = (self.mtu - header.ihl as u16 * 4) / 8") {
+        return "panic:assert:cut".into();
+    }
+    if !p.file.ends_with("fragmentation.rs") {
+        return format!("panic:other:{}:{}", p.file.rsplit('/').next().unwrap_or(""), t.replace(' ', "_"));
+    }
+    let sub = p.msg.contains("subtract with overflow");
+    let add = p.msg.contains("add with overflow");
+    if sub && t.contains("mtu") {
         "panic:sub-overflow:fragment_blocks".into()
-    } else if t.starts_with("header.total_length = header.ihl as u16 * 4 + fragment_blocks * 8") {
-        "panic:add-overflow:first_total_length".into()
-    } else if t.starts_with("header.total_length -= fragment_blocks * 8") {
+    } else if sub && t.contains("total_length") {
         "panic:sub-overflow:rest_total_length".into()
-    } else if t.starts_with("header.fragment_offset += fragment_blocks") {
+    } else if add && t.contains("fragment_offset") {
         "panic:add-overflow:fragment_offset".into()
+    } else if add && t.contains("total_length") {
+        "panic:add-overflow:first_total_length".into()
     } else {
         format!("panic:other:fragmentation.rs:{}", t.replace(' ', "_"))
     }
@@ -235,7 +250,7 @@ impl Exec {
                     }
                 }
                 self.cur = next;
-                out.line(line, &format!("{} n={}", shown.join(" "), self.cur.len()));
+                out.line(line, &compress(&format!("{} n={}", shown.join(" "), self.cur.len())));
                 if self.in_pre {
                     self.oracle_hop(mtu, cur.is_empty(), out);
                 }
